@@ -26,10 +26,11 @@ def _init_worker():
 
 def _chunk_task(args):
     (machine_key, base_seed, indices, avoid_frac, known, shrink_budget,
-     keep_samples, run_timeout) = args
+     keep_samples, run_timeout, ops_scale) = args
     machine = get_machine(machine_key)
     return kernel.run_chunk(machine, base_seed, indices, avoid_frac, known,
-                            shrink_budget, keep_samples, run_timeout)
+                            shrink_budget, keep_samples, run_timeout,
+                            ops_scale)
 
 
 # machine registry -----------------------------------------------------------
@@ -141,7 +142,7 @@ class Agg:
 
 def run_variant(key, base_seed, budget_s, max_runs, workers, agg, known,
                 chunk=4, shrink_budget=200, run_timeout=120,
-                avoid_frac=70):
+                avoid_frac=70, ops_scale=1.0):
     """Run seeds of one machine variant until the time budget is used."""
     ctx = mp.get_context('fork')
     t_end = time.time() + budget_s
@@ -158,7 +159,7 @@ def run_variant(key, base_seed, budget_s, max_runs, workers, agg, known,
             next_index += len(idx)
             f = ex.submit(_chunk_task, (key, base_seed, idx, avoid_frac,
                                         known, shrink_budget, 3,
-                                        run_timeout))
+                                        run_timeout, ops_scale))
             pending[f] = idx
             return True
 
@@ -253,7 +254,9 @@ def run_property(pid, tier, base_seed, workers=16, budget_override=None,
     for key, share in variants:
         n = run_variant(key, base_seed, budget * share, max_runs, workers,
                         agg, known,
-                        shrink_budget=(200 if tier == 'quick' else 300))
+                        shrink_budget=(200 if tier == 'quick' else 300),
+                        run_timeout=(120 if tier == 'quick' else 240),
+                        ops_scale=(1.0 if tier == 'quick' else 2.0))
     fidelity = None
     if pid == 'C06' and tier == 'thorough' and not only:
         from simphot.machines.deblend import real_pool_fidelity
@@ -352,6 +355,7 @@ def run_property(pid, tier, base_seed, workers=16, budget_override=None,
             'known_findings_matched': {k: len(v) for k, v in
                                        agg.known.items()},
             'workers': workers,
+            'history_length_scale': 1.0 if tier == 'quick' else 2.0,
             'fidelity_real_pool': fidelity,
         },
         'assumptions': ASSUMPTIONS.get(pid, []),
